@@ -280,6 +280,14 @@ func (r *Run) normFiles(v interface{}) interface{} {
 			}
 			return "MISSING:" + path.Base(x)
 		}
+		if strings.HasPrefix(x, r.Root+"/") {
+			// a file outside the pipestance (pre-existing data below the scratch
+			// root): by content too, so that nothing depends on the root's name
+			if b, err := os.ReadFile(x); err == nil {
+				return "EXTFILE:" + string(b)
+			}
+			return "EXTMISSING:" + path.Base(x)
+		}
 		return x
 	case []interface{}:
 		out := make([]interface{}, len(x))
